@@ -20,6 +20,21 @@ PROP = {
          "quick": {"runs": 50000, "max_len": 600, "workers": 2, "unit_timeout": 60},
          "thorough": {"runs": 1500000, "max_len": 900, "workers": 2, "unit_timeout": 60}},
     ],
-    "assumptions": [],
+    "assumptions": [
+        "every generated tree is isReady(); depth <= 4, <= 20 nodes; control calls (start/pause/resume/stop/reset) go to the root only, from the loop thread, "
+        "outside callbacks except resume() inside the root's block callback and stop/reset/start inside the root's finish callback (patterns of the library's own tests / ActionExecutor)",
+        "where header pseudo-code and pinned unit tests disagree the tests are the documentation of record: Sequence without a mode trigger returns the last child's result, "
+        "Parallel always succeeds, IfElse with the needed branch missing succeeds, Repeat exhaustion succeeds",
+        "a Switch selector is always a leaf (the reason message a composite hands up is undocumented); Dummy leaves are told to finish/block only while running",
+        "left free: pass counts between cause and effect, start order across Parallel branches, what a paused composite does in 'resume; pause' within one pass, "
+        "what resume() does to leaves that blocked on their own, return values of control calls, Sleep timing (real-clock remainder)",
+        "final hooks are not demanded for runs ended by reset() of a tree that was still under way; the functional reference is skipped for runs in which a timeout fired "
+        "or which re-run a Parallel that its mode trigger may cut short",
+    ],
 }
-META = {"design_ref": "DESIGN.md section 4, C17", "technique": "", "level_text": "", "level_note": ""}
+META = {
+    "design_ref": "DESIGN.md section 4, C17",
+    "technique": "model-based PBT (rapidcheck) + coverage-guided fuzzing (libFuzzer) of generated action trees and control scripts on the production loop under a virtual clock (hook H1): per-node conformance monitors of the documented pseudo-code, a recursive functional reference, after-every-pass invariants, and two metamorphic relations (reset == fresh tree; pause/resume pairs are transparent), under ASan/UBSan",
+    "level_text": "Generated trees (depth <= 4, <= 20 nodes) over Sequence/Parallel (3 modes each), IfElse, IfThen, Switch, Loop (3 modes), LoopIf, Repeat (1-4 times, 3 modes), Wrapper (4 modes), Composite with Succ/Fail/Function/Dummy/Sleep leaves (scripted success/failure per run, completion delay, block-then-finish, never) and optional timeouts are driven by generated start/pause/resume/stop/reset scripts on the root, placed at loop passes, in the pass between a child's finish/block and its parent's handling of it, between two notifications of one pass, inside the root's finish callback, plus deletion of the tree at any pass. Every node is observed through a probe subclass (protected virtual hooks only) and the public accessors. Checked at every event and after every pass: each composite starts only the child / finishes only with the result its documented pseudo-code yields from its children's results (and has done so by final quiescence), no start while under way, nothing under a finished/stopped node running or paused, a reset tree all idle and silent, no finish/block accepted by a reset action, no root callback after stop/reset, final hook once per run, state()/result()/index() consistent; per run of the root the result and the series-parallel leaf start order are compared with a recursive reference evaluation; 'prefix; reset; S' must give the same event trace as S on a fresh tree; inserted pause/resume pairs must not change results or leaf starts. Exploration only: no counter-example among N generated cases.",
+    "level_note": "Trusted: the per-composite monitors and the recursive reference in harness/C17/actions.cpp (written from the header pseudo-code and the pinned unit tests), the probe subclasses (record and call the base implementation), the virtual clock hook H1, ASan/UBSan. Not compared: pass counts, start order across Parallel branches, reason/trace contents (except Switch case messages), Sleep remainders, return values of control calls. The functional reference is skipped for runs with a fired timeout. Control calls only on the root; no re-entrant calls from leaf callbacks. ActionExecutor only smoke-tested.",
+}
